@@ -48,6 +48,11 @@ func checkC15(r *evid.Run) {
 	r.Set("exhaustive", true)
 	r.Set("rule", "every item sequence up to the bound spelled under each member of the notation family (unit: tab, 1-4 spaces, 2 tabs; bullet per line; heading roots; CRLF; blank/white-space-only lines at any position; final newline by concretisation), replayed through text (both generators), JSON, YAML and walk; the full product of the dimensions is sampled by the random trace driver; non-trivial = at least 2 nodes")
 	traceDocs(r, "C15", traceSpecC15)
+	np := 60
+	if r.Tier == "thorough" {
+		np = 600
+	}
+	traceParser(r, np, traceSpecC15.Params) // the parser itself, call by call, with its learnt state (TraceParser.tla)
 }
 
 func checkSpellingFs(r *evid.Run, pool *wproto.Pool, d *DocState, c *tok.Conc) {
